@@ -551,6 +551,9 @@ def check_c02(chk, tier):
     chk.add_harness(vlib.harness(hb, ["scan-replay", bpath]))
     # (b) whole programs re-laid out
     _layout_check(chk, tier, "C02")
+    # the lines as the user reads them: the binary over the directed trees of the pipeline, among them a second run over
+    # the (longer) report of an earlier run -- what the file lists afterwards are the lines of this run's findings only
+    _pipeline(chk, tier, "C02", [])
     chk.exhaustive = True
     chk.rule = ("(a) TLC enumerates every well-formed text of byte classes {LF,CR,W,A,2-byte char} up to the configured "
                 "length and every token-start offset, runs the Scan machine and checks it against LineOf; each "
@@ -890,6 +893,8 @@ def _pipeline(chk, tier, pid, beh):
              {"entries": [fl("Many.sol", "c9"), dr("more", [fl("Many2.sol", "c9"), fl("b.sol", "c6")])]},
              # deeply nested expressions between ordinary findings (c10), listed before and after other files
              {"entries": [fl("A.sol", "c1"), fl("Deep.sol", "c10"), dr("sub", [fl("Deep2.sol", "c10"), fl("Z.sol", "c2")]), fl("Z.sol", "c5")]},
+             # a file of free functions, structs and constants only (c12), alone in its directory and next to others
+             {"entries": [dr("types", [fl("Free.sol", "c12")]), fl("Other.sol", "c2"), fl("Free2.sol", "c12")]},
              # several findings of one pattern inside one declaration (c11)
              {"entries": [fl("Wrapped.sol", "c11"), dr("again", [fl("Wrapped.sol", "c11"), fl("a.sol", "c5")])]},
              # a reformatted copy of a file under the same name elsewhere in the tree (vendored code): its lines are its own
@@ -1117,17 +1122,66 @@ def _named_runs(chk, hb, sb, d, cat):
                         # an entry under ANOTHER pattern's section than the one named is attributed to the named one:
                         # it is what the name selected
                         listed[n].setdefault(it["f"], []).append(it["l"])
+        base = [dict(r) for r in recs]
         for r in recs:
             r["results"] = {n: sorted(set(listed[n].get(r["src"], []))) for n in listed if n in r["results"]}
             r["entry"] = "binary:one-name-per-run"
+        # ... and two names per run, in both orders: every ordered pair of vulnerability and of qa names, a rotating
+        # sample of the pairs of optimization names -- what is listed under each name's section is that pattern's again
+        pairs = []
+        for c in bindrive.CATS:
+            ns = cat[c]
+            allp = [(a, b) for a in ns for b in ns if a != b]
+            if c == "optimizations":
+                allp = [pq for k, pq in enumerate(allp) if k % 17 == vlib.seed() % 17]
+            pairs += [(c, a, b) for (a, b) in allp]
+        preports = os.path.join(scratch, "preports")
+        os.makedirs(preports)
+        for i, (c, a, b) in enumerate(pairs):
+            cwd = os.path.join(scratch, "pcwd%03d" % i)
+            os.makedirs(cwd)
+            with open(os.path.join(cwd, "two.toml"), "w") as f:
+                f.write('path = "unused"\n')
+                for cc in bindrive.CATS:
+                    f.write("%s = [%s]\n" % (cc, ", ".join(json.dumps(x) for x in (a, b)) if cc == c else ""))
+            code, err = bindrive.run_solstat(sb, cwd, bindrive.spell_args(src, "two.toml", [c, a, b]))
+            rp = os.path.join(cwd, "solstat_report.md")
+            if code != 0 or not os.path.exists(rp):
+                chk.violate("named-run-failed:%s+%s" % (a, b), "solstat with %s and %s selected: exit %s, report %s" % (
+                    a, b, code, "present" if os.path.exists(rp) else "missing"), {"patterns": [a, b], "stderr": err[-200:]})
+                continue
+            shutil.copy(rp, os.path.join(preports, "p%03d.md" % i))
+        pparsed = bindrive.parse_reports(hb, preports)
+        for i, (c, a, b) in enumerate(pairs):
+            pr = pparsed.get("p%03d.md" % i)
+            if pr is None:
+                continue
+            got = {a: {}, b: {}}
+            cur = None
+            for cc in bindrive.CATS:
+                for it in pr.get("parts", {}).get(cc, []):
+                    if it["t"] == "Section":
+                        cur = it["p"]
+                    elif it["t"] == "Entry" and cur in got:
+                        got[cur].setdefault(it["f"], []).append(it["l"])
+                    elif it["t"] == "Entry":
+                        # an entry under a section that was not selected at all counts against the first name
+                        got[a].setdefault(it["f"], []).append(it["l"])
+            for r0 in base:
+                if a in r0["results"] and b in r0["results"]:
+                    r2 = dict(r0)
+                    r2["src"] = r0["src"]
+                    r2["results"] = {a: sorted(set(got[a].get(r0["src"], []))), b: sorted(set(got[b].get(r0["src"], [])))}
+                    r2["entry"] = "binary:%s-before-%s" % (a, b)
+                    recs.append(r2)
         vlib.write_ndjson(tpath, recs)
-        chk.evaluations += len(recs) * len(names)
+        chk.evaluations += len(base) * (len(names) + 2 * len(pairs))
 
         def describe(rec, why):
             det, verdict = why.split(":")
             return ("named-pattern:%s:%s" % (det, verdict),
-                    "with only the name %s configured, the report lists lines %s for %s: not what the pattern documented under that name flags" % (
-                        det, rec["results"].get(det), rec["src"]), {"detector": det})
+                    "run %s: the report lists lines %s under %s for %s: not what the pattern documented under that name flags" % (
+                        rec.get("entry"), rec["results"].get(det), det, rec["src"]), {"detector": det})
         trace_validate(chk, "TV_Patterns", tpath, describe, env={"MODE": "ALL"}, timeout=1800)
     finally:
         shutil.rmtree(scratch, ignore_errors=True)
